@@ -20,6 +20,7 @@ import time
 ROOT = os.path.dirname(os.path.dirname(os.path.abspath(__file__)))
 REPO = os.environ.get("VERIF_REPO", "/repo")
 HARNESS = os.path.join(ROOT, "harness")
+EVIDENCE = os.environ.get("VERIF_EVIDENCE_DIR", os.path.join(ROOT, "evidence"))
 SPEC = os.path.join(ROOT, "spec")
 TLA_CP = "/opt/veriftools/tla/tla2tools.jar:/opt/veriftools/tla/CommunityModules-deps.jar"
 NCPU = os.cpu_count() or 4
@@ -112,8 +113,22 @@ def sync_gosum():
         pass
 
 
+def _harness_for_repo():
+    """Seeded-change runs (bin/mutant) point VERIF_REPO at a scratch worktree: build a copy of the harness module
+    whose replace directive names that tree, so that /repo is left alone."""
+    global HARNESS
+    if REPO != "/repo" and not HARNESS.startswith(tempfile.gettempdir()):
+        d = os.path.join(scratch("harness-"), "harness")
+        shutil.copytree(HARNESS, d)
+        gm = os.path.join(d, "go.mod")
+        txt = open(gm).read().replace("=> /repo", "=> " + REPO)
+        open(gm, "w").write(txt)
+        HARNESS = d
+
+
 def build(cmds, outdir, tags="verif", race=False):
     """Build harness commands against /repo's current working tree."""
+    _harness_for_repo()
     sync_gosum()
     go, env = go_cmd()
     bins = {}
@@ -328,8 +343,8 @@ class Check:
             "wall_s": round(wall, 2),
             "violations": len(self.violations),
         }
-        os.makedirs(os.path.join(ROOT, "evidence"), exist_ok=True)
-        with open(os.path.join(ROOT, "evidence", self.prop + ".json"), "w") as f:
+        os.makedirs(EVIDENCE, exist_ok=True)
+        with open(os.path.join(EVIDENCE, self.prop + ".json"), "w") as f:
             json.dump(ev, f, indent=1, sort_keys=True)
             f.write("\n")
         code = 0
